@@ -455,7 +455,8 @@ def slc4(ctx: Ctx) -> None:
         for assign, out in rows:
             running = assign[R_] and (assign[A_] if pre == "ag" else True)
             want = f"StackSlice(outer={p}.{pre}_frame)" if running else f"({p}.{pre}_frame, {p}.{nxt})"
-            groups.setdefault(tuple(assign[k_] for k_ in known), []).append((assign, out, want, out == want))
+            same = out == want or (not running and pre == "ag" and assign[A_] and out == f"({p}.{pre}_frame, None)")      # ag_await is None on this row: the literal is the same value
+            groups.setdefault(tuple(assign[k_] for k_ in known), []).append((assign, out, want, same))
         for lst in groups.values():
             wrong = [r for r in lst if not r[3]]
             if wrong and len(wrong) == len(lst):
@@ -487,14 +488,23 @@ def gcm1(ctx: Ctx) -> None:
         n += 1
         gs = [(norm(g), pol) for g, pol in guards_of(mod, st[0], fn)]
         v = st[0].value
-        okv = isinstance(v, ast.Call) and ctx.P.resolve_call(mod, v).is_pkg("_extract", "extract_child") and norm(v.args[0]) == f"{mv}.{gen_attr}" and _kws(v) == {"for_task": "False"}
+        arg0 = v.args[0] if isinstance(v, ast.Call) and v.args else None
+        if isinstance(arg0, ast.Name):
+            # a local that is assigned once, from the manager's generator, in the same block just before
+            defs_ = [a for a in walk_scope(fn) if isinstance(a, ast.Assign) and any(isinstance(t, ast.Name) and t.id == arg0.id for t in a.targets)]
+            if len(defs_) == 1 and len(defs_[0].targets) == 1 and defs_[0].lineno <= st[0].lineno and guards_of(mod, defs_[0], fn) == guards_of(mod, st[0], fn):
+                arg0 = defs_[0].value
+        okv = isinstance(v, ast.Call) and ctx.P.resolve_call(mod, v).is_pkg("_extract", "extract_child") and arg0 is not None and norm(arg0) == f"{mv}.{gen_attr}" and _kws(v) == {"for_task": "False"}
         okg = gs in ([(f"not {cv}.is_exiting", True)], [(f"{cv}.is_exiting", False)])
         if okv and okg:
             ctx.R.ok("GCM-1", f"{q.split('.')[0]}: inner_stack = extract_child({mv}.{gen_attr}, for_task=False) iff not exiting")
         elif not okg:
             ctx.R.fail("GCM-1", mod, st[0], "inner_stack must be extracted unless (and only unless) the manager is exiting: an exiting manager's frames already appear in the main frame series", construct=f"{q}: guard of inner_stack")
-        else:
+        elif isinstance(v, ast.Call) and ctx.P.resolve_call(mod, v).is_pkg("_extract", "extract_child") and ((isinstance(arg0, ast.Attribute) and norm(arg0.value) == mv) or _kws(v) != {"for_task": "False"}
+                                                                                                         or (arg0 is not None and norm(arg0) == mv)):
             ctx.R.fail("GCM-1", mod, st[0], f"inner_stack must be extract_child(<the manager's generator>, for_task=False)", construct=f"{q}: inner_stack value")
+        else:
+            ctx.R.undecided("GCM-1", f"{q}: inner_stack = {norm(v)[:80]} is not a recognised form of extract_child({mv}.{gen_attr}, for_task=False)")
     if n < 2:
         raise AnalysisError("GCM-1: sibling registrations not found")
 
